@@ -64,6 +64,16 @@ def statusCode : Status → Nat
 
 def modelledCodec (c : Nat) : Bool := c == 0 || c == 1 || c == 5 || c == 7
 
+/-- `woracle=u1:c1,u2:c2,…` of GZIP / ZSTD files: page bodies found in the file and what zlib / libzstd, called
+directly with the writer's hard-wired parameters, compress them to -/
+def parseOracle (s : String) : Option Impl.FileReal.Oracle :=
+  parseList (fun p => match p.splitOn ":" with
+    | [u, c] => do
+      let ub ← parseHex u
+      let cb ← parseHex c
+      some (ub, cb)
+    | _ => none) s
+
 def handle (l : Line) : Option Verdict :=
   match l.op with
   | "wrtwice" => some .ok      -- directed determinism cases: judged by the C-side predicate p_same_twice
@@ -79,6 +89,13 @@ def handle (l : Line) : Option Verdict :=
           let m := fileOf (Impl.FileReal.deps []) c.cols c.codec c.page "Carquet" c.ops
           verdict ([("writer_model_statuses", m.2.map statusCode == st),
                     ("writer_model_bytes", m.1 == file)] ++ rb.1) rb.2
+        else if c.codec == 2 || c.codec == 6 then
+          match (l.outStr "woracle").bind parseOracle with
+          | some o =>
+            let m := fileOf (Impl.FileReal.deps o) c.cols c.codec c.page "Carquet" c.ops
+            verdict ([("writer_model_statuses", m.2.map statusCode == st),
+                      ("writer_model_bytes_with_library_oracle", m.1 == file)] ++ rb.1) rb.2
+          | none => verdict ([("writer_model_statuses_all_ok", st.all (· == 0))] ++ rb.1) rb.2
         else
           verdict ([("writer_model_statuses_all_ok", st.all (· == 0))] ++ rb.1) rb.2
       | _, _ => .bad "wr outs"
